@@ -202,16 +202,37 @@ fn svd_from_vectors<const D: usize>(
         }
     }
 
-    let result = matrix.svd(false, true);
-    let v_t = result.v_t.unwrap();
+    // The right singular vectors of the n x D matrix are the eigenvectors of its D x D Gram matrix,
+    // whose symmetric decomposition stays accurate when the points are collinear, coplanar or
+    // coincident (the general SVD does not). Each singular value is then measured directly as the
+    // norm of the projections onto its vector.
+    let gram = matrix.transpose() * &matrix;
+    let eigen = gram.symmetric_eigen();
+    let mut order: Vec<usize> = (0..D).collect();
+    order.sort_by(|a, b| eigen.eigenvalues[*b].partial_cmp(&eigen.eigenvalues[*a]).unwrap());
 
     let mut basis = [SVector::<f64, D>::zeros(); D];
     let mut scales = [0.0; D];
-    for i in 0..D {
+    for (i, k) in order.iter().enumerate() {
         for j in 0..D {
-            basis[i][j] = v_t[(i, j)];
+            basis[i][j] = eigen.eigenvectors[(j, *k)];
         }
-        scales[i] = result.singular_values[i];
+        // Fix the sign so that the largest component of each basis vector is positive
+        let (_, largest) = basis[i].iter().fold((0.0, 0.0), |(m, v), x| {
+            if x.abs() > m {
+                (x.abs(), *x)
+            } else {
+                (m, v)
+            }
+        });
+        if largest < 0.0 {
+            basis[i] = -basis[i];
+        }
+        scales[i] = vecs
+            .iter()
+            .map(|v| v.dot(&basis[i]).powi(2))
+            .sum::<f64>()
+            .sqrt();
     }
 
     SvdBasis {
